@@ -111,7 +111,9 @@ func Compile(a *refsem.Arch, p *seccomp.Policy, big bool) (insts []bpf.Instructi
 			insts = nil
 		}
 	}()
+	tok := Enter(func() any { return map[string]any{"scope": "non-terminating Assemble", "policy": ToJSON(a, p, big), "class": "hang"} })
 	insts, err = cp.Assemble()
+	Leave(tok)
 	return
 }
 
